@@ -1,6 +1,7 @@
 import SFV.Proofs.GaussNM
 import SFV.Proofs.FockTensor
 import SFV.Proofs.Bosonic
+import SFV.Proofs.GaussBackend
 
 /-!
 # C01 — all simulator back ends compute the same physics
@@ -32,6 +33,14 @@ theorem gaussian_program_refines_from {K : Type} [CommRing K] (ops : List (GOp K
     (hI : NMInv st) (hok : ∀ op ∈ ops, op.ok) :
     toXP (ops.foldl applyNM st) = ops.foldl applyXP (toXP st) ∧ NMInv (ops.foldl applyNM st) :=
   applyNM_program ops st hI hok
+
+/-- **sign convention of the API layer**: `GaussianBackend.beamsplitter(θ, φ, k, l)` (which calls the
+circuit with `(−θ, −φ)`) realises the documented `B(θ, φ)`: `a_k ↦ cos θ·a_k − e^{−iφ} sin θ·a_l`,
+`a_l ↦ cos θ·a_l + e^{iφ} sin θ·a_k` — all register sizes, ordered pairs, parameter values -/
+theorem gaussian_backend_beamsplitter {K : Type} [CommRing K] (st : GS K) (hI : NMInv st) (c s ct sn : K)
+    (k l : Nat) (hkl : k ≠ l) (hcs : c * c + s * s = 1) (hts : ct * ct + sn * sn = 1) :
+    toXP (bkBeamsplitter st c s ct sn k l) = linMap (sfBsRows k l c s ct sn) (toXP st) :=
+  bkBeamsplitter_refines st hI c s ct sn k l hkl hcs hts
 
 /-- **two-mode gates, pure representation**: for all register sizes, cutoffs and distinct targets
 in any order the fast path applies the embedded operator (given the kernel is the contraction of
